@@ -242,7 +242,8 @@ def header_table(col, ctx, stride, offset, shard, nshards):
     def frame(opcode, payload, fin=True):
         return ref6455.encode_frame(opcode, payload, fin=fin, mask=mk if is_server else None)
     values = [v for v in range(offset, 65536, stride)][shard::nshards]
-    for v in values:
+    from harness.core import guarded_blocks
+    for v in guarded_blocks(values):
         b0, b1 = v >> 8, v & 0xFF
         variants = (0, 1, 2) if (b1 & 0x7F) >= 126 else (0,)
         for variant in variants:
@@ -304,7 +305,8 @@ def close_codes(col, server, fbd, stride, offset):
     from harness import ref6455
     mk = b"\x0a\x0b\x0c\x0d" if server else None
     codes = sorted(set(range(0, 5100)) | set(range(offset, 65536, stride)))
-    for code in codes:
+    from harness.core import guarded_blocks
+    for code in guarded_blocks(codes):
         if code in (1012, 1013, 1014):
             continue   # registered after the RFC: don't-care
         for reason in (b"", b"bye"):
